@@ -13,6 +13,7 @@ EnvKPairs == {KPairSeq[i] : i \in KLo..KHi}
 
 (* ---- operation scripts ---- *)
 AllOpsButCall == AllOps \ {"call"}
+ScriptOps == AllOps \ {"item", "tslice"}     \* integer items and 1-tuple slices: see the exhaustive MonIndex runs
 QSlices == {<<None, None, -1>>, <<1, None, None>>}
 TSlices == {<<None, None, -1>>, <<1, None, None>>, <<None, -1, 2>>, <<-2, None, None>>}
 W0 == {<< >>}
@@ -31,4 +32,31 @@ TSteps == {None, 1, 2, 3, 5, -1, -2, -3, -5}
 QAllSlices == {<<a, b, c>> : a \in QBnd, b \in QBnd, c \in QSteps}
 TAllSlices == {<<a, b, c>> : a \in TBnd, b \in TBnd, c \in TSteps}
 SliceKPairs == {<<None, None>>, <<2, 2>>}
+
+(* ---- index selections offered inside the operation scripts: a list with a repeat, a negative
+   entry and out of order (list branch of __getitem__), and one irregular mask per monitor length
+   in the 1-tuple form (tuple branch): QSels.  The short thorough scripts (w5f2) add an integer
+   array in a 1-tuple, the inverse mask as a plain array, a plain integer array and a python list
+   of bools: XSels ---- *)
+ScriptMask(n) == [j \in 1..n |-> IF j % 3 = 2 THEN 0 ELSE 1]          \* 1,0,1,1,0,1,1,0,...
+QSels == {<<"ilist", <<0, -1, 0>>>>} \cup {<<"tmask", ScriptMask(n)>> : n \in 1..9}
+XSels == QSels \cup {<<"tarray", <<-1, 1>>>>, <<"iarray", <<1, 1, 0>>>>, <<"lmask", <<1, 0, 1>>>>}
+         \cup {<<"imask", [j \in 1..n |-> 1 - ScriptMask(n)[j]]>> : n \in 2..12}
+NoItems == {}
+
+(* ---- exhaustive indexing: one Index / GetItem / TSlice on a monitor of every length 0..N:
+   every list of <= L indices in -N..N-1 in each of the four list forms, every mask in each of the
+   three mask forms, every integer -N-1..N, a few slices through the tuple branch ---- *)
+IndexOps == {"index", "item", "tslice"}
+SeqsUpTo(S, L) == UNION {[1..l -> S] : l \in 0..L}
+AllSels(N, L) == {<<f, q>> : f \in ListForms, q \in SeqsUpTo((-N)..(N - 1), L)}
+                 \cup {<<f, q>> : f \in MaskForms, q \in SeqsUpTo({0, 1}, N)}
+QAllSels == AllSels(3, 3)
+TAllSels == AllSels(4, 4)
+QItems == (-4)..3
+TItems == (-5)..4
+IdxSlices == {<<None, None, -1>>, <<1, None, 2>>, <<None, -1, None>>, <<-2, None, None>>, <<None, None, None>>}
+IdxKLo == IF "C20_KLO" \in DOMAIN IOEnv THEN atoi(IOEnv.C20_KLO) ELSE 1
+IdxKHi == IF "C20_KHI" \in DOMAIN IOEnv THEN atoi(IOEnv.C20_KHI) ELSE 4
+IndexKPairs == {<<Ks[i], Ks[i]>> : i \in IdxKLo..IdxKHi}
 =============================================================================
